@@ -1763,6 +1763,12 @@ def run(ctx):
            for sk in ('hv', 'hn', 'ckattr', 'reason', 'errmsg', 'redirect', 'nf_raise', 'referer', 'sesspath')
            for pl in ('\ud800', 'a\udfff\r\nb<', '\u8200\udc80"')
            for pr in ('HTTP/1.0', 'HTTP/1.1')]
+    # ... and in the one log atom an application fills with a str of its own (request.login: a user name taken from a
+    # JSON body, a gateway's REMOTE_USER decoded with surrogateescape), together with what the log format escapes
+    sur += [{'kind': 'wsgi', 'sink': 'login', 'payload': pl, 'proto': pr, 'name': 'X-Probe', 'attr': 'path',
+             'code': 404, 'rstatus': None}
+            for pl in ('bob\udc80', 'bob\udcff" 200 1 "x" "y', 'b\ud800\\"', '\udc80\r\n"x\\"', '"\udfff', 'a"b\udc80\u8200')
+            for pr in ('HTTP/1.0', 'HTTP/1.1')]
     run_wsgi_cases(ctx, sur)
     # HTTP/1.1 without Host (400), HTTP/1.0 without Host (served), each with a payload in the log atoms
     run_wsgi_cases(ctx, [{'kind': 'wsgi', 'sink': 'referer', 'payload': pl, 'proto': pr, 'nohost': True, 'via': 'raw'}
